@@ -30,3 +30,83 @@ mod status;
 mod ui;
 mod validity;
 
+
+// In-process access to the request dispatcher for the verification harness.
+#[cfg(feature = "verif-hooks")]
+pub mod verif_api {
+    use std::sync::Arc;
+    use http_body_util::BodyExt;
+    use rpki::rtr::server::NotifySender;
+    use crate::config::Config;
+    use crate::metrics::{HttpServerMetrics, RtrServerMetrics};
+    use crate::payload::SharedHistory;
+    use super::dispatch::State;
+    use super::request::Request;
+    pub use super::delta::{verif_delta_chunks, verif_snapshot_chunks};
+
+    /// The dispatcher state the HTTP listener creates for its connections.
+    pub struct Handler(State);
+
+    /// A complete response: status, headers and the body frames as they
+    /// were produced (one entry per data frame, i.e. per streamed chunk).
+    pub struct Reply {
+        pub status: u16,
+        pub headers: Vec<(String, String)>,
+        pub frames: Vec<Vec<u8>>,
+    }
+
+    impl Handler {
+        pub fn new(
+            config: &Config,
+            history: SharedHistory,
+            rtr_metrics: Arc<RtrServerMetrics>,
+            notify: NotifySender,
+        ) -> Self {
+            Handler(State::new(config, history, rtr_metrics, None, notify))
+        }
+
+        pub fn metrics(&self) -> &Arc<HttpServerMetrics> {
+            self.0.metrics()
+        }
+
+        /// Dispatches a body-less request exactly like the listener does.
+        pub async fn request(
+            &self, method: &str, uri: &str, headers: &[(&str, &str)]
+        ) -> Reply {
+            let mut builder = hyper::Request::builder().method(method).uri(uri);
+            for (name, value) in headers {
+                builder = builder.header(*name, *value);
+            }
+            let (parts, _) = builder.body(()).expect(
+                "invalid request"
+            ).into_parts();
+            let response = match self.0.handle_request(
+                Request::new(parts, None)
+            ).await.into_hyper() {
+                Ok(response) => response,
+                Err(err) => match err { }
+            };
+            let (parts, mut body) = response.into_parts();
+            let mut frames = Vec::new();
+            while let Some(frame) = body.frame().await {
+                let frame = match frame {
+                    Ok(frame) => frame,
+                    Err(err) => match err { }
+                };
+                if let Ok(data) = frame.into_data() {
+                    frames.push(data.to_vec())
+                }
+            }
+            Reply {
+                status: parts.status.as_u16(),
+                headers: parts.headers.iter().map(|(name, value)| {
+                    (
+                        name.as_str().to_string(),
+                        String::from_utf8_lossy(value.as_bytes()).into_owned()
+                    )
+                }).collect(),
+                frames,
+            }
+        }
+    }
+}
